@@ -72,6 +72,21 @@ PROPS = {
                         "requests for the server's own address are dropped by the own-address guard (a listed mechanism), hence outside the NAK clause",
                         "classify_table assumes the server's address is not 255.255.255.255 (found by the prover: with it a broadcast REQUEST classifies as renewing)"],
     },
+    "C05": {
+        "level": "In every state reachable by any interleaving: a grant stays in force for its whole advertised time whatever anyone sends "
+                 "(lease_not_shortened), a REQUEST for the granted address within that time is acknowledged absent a conflict (offer_then_ack), "
+                 "overlapping grants to one holder carry the same address (same_address, discover_while_bound), a specific free pool address is "
+                 "honoured (suggestion_honoured) and silence on a DISCOVER means every pool address was examined and found bound, .0/.255 or in "
+                 "conflict (silent_only_if_exhausted) — Lean theorems over all event lists; correspondence as C01 with gaps around hold and lease "
+                 "times and a monitor that tracks every client's running grants from the tapped frames.",
+        "props": ["C05"],
+        "streams": [{"test": "TestSrvSeq", "names": ["srvseq"], "timeout": 300}, {"test": "TestIpdb", "names": ["ipdb"], "timeout": 300}],
+        "rule": "as C01 (gaps hold-2 s, hold+2 s, lease/2, lease-3 s, lease+3 s, 3*lease; re-DISCOVERs by bound clients; retransmitted REQUESTs; other "
+                "hosts in between; pools down to one address) plus the IPDB stream at database level; non-trivial = the server answered",
+        "trusted": ["as C01"],
+        "assumptions": ["'within the hold time' = the handler's confirming database call happens within it (the ARP probe of up to 600 ms lies before it)",
+                        "silent_only_if_exhausted assumes the dynamic range inside the managed range (guaranteed by server.New; counterexample otherwise)"],
+    },
     "C06": {
         "level": "Every OFFER/ACK/NAK frame read back with the stack's decoders is a BOOTREPLY echoing xid, flags and hardware address, server identifier = "
                  "own address, ports 67->68, IP source = own address, destination by the broadcast flag, link-layer destination likewise, checksums "
@@ -111,6 +126,28 @@ PROPS = {
         "trusted": ["as C01"],
         "partial": "Timing clause partial: the 3 x 200 ms bound is observed under the virtual clock; answers later than one ping window coincide with a later "
                    "window's deadline and are covered by the model only.",
+    },
+    "C09": {
+        "level": "The concurrent system model (events = packet arrival or one database call of one handler in flight, any interleaving, clocks "
+                 "non-decreasing) carries C01/C02/C03/C05 for every schedule; specific to isolation: the database after any interleaving is the sequential "
+                 "fold of the recorded calls in lock order (calls_serialize), a handler's step depends only on its own packet/state, the database and its "
+                 "own oracle and touches no other handler (step_is_local), a lost race only costs silence, never a wrong reply (race_only_silence), an "
+                 "exchange is not derailed by others' packets (not_derailed), and the sequential handler is a run of the system (handle_is_a_run) — Lean "
+                 "theorems; the granularity of atomicity and the per-packet copy are facts extracted from the source on every run "
+                 "(Expect.c01_c09_c11_ipdb_lock_discipline, c09_handler_isolation); real-time bursts of overlapping packets into the real Run loop and "
+                 "concurrent calls on the real IPDB checked against all sequential orders.",
+        "props": ["C09"],
+        "streams": [{"test": "TestSrvConc", "names": ["srvconc"], "timeout": 300}, {"test": "TestDbConc", "names": ["dbconc"], "timeout": 300},
+                    {"test": "TestSrvConc", "names": ["srvconc"], "timeout": 300, "race": True, "tier": "thorough"},
+                    {"test": "TestDbConc", "names": ["dbconc"], "timeout": 300, "race": True, "tier": "thorough"}],
+        "rule": "48 (thorough 600) real servers side by side, each with 2-5 hosts (distinct client identifiers) sending DISCOVERs 0-400 ms apart (landing "
+                "while earlier handlers sleep, probe and hold the lock), retrying lost races, then REQUESTing their offers with other hosts' DISCOVERs in "
+                "between; 1 500 (thorough 40 000) groups of 2-6 concurrent update/lookup/find calls on one IPDB whose results must equal those of some "
+                "permutation; thorough repeats both under the race detector",
+        "trusted": ["real-time scheduling only samples interleavings; the Go memory model is not modelled: data-race freedom is derived from the lock and "
+                    "buffer-freshness facts, the race detector (thorough tier) is supporting evidence"],
+        "partial": "Data-race clause partial (facts + race detector); the burst stream is monitor-only (no model-side interleaving search).",
+        "technique": "Lean 4 theorems over a small-step concurrent system model + source facts (lock discipline, per-packet copy) + real-time burst monitors",
     },
     "C10": {
         "level": "The receive chain never indexes out of range for any byte string (rx_never_panics, with the C12/C13 decoder theorems), is total (rx_total), a "
